@@ -90,7 +90,7 @@ class Adm(object):
     self.ft = FT()
     self.wm.protocols.time = self.ft
 
-  def load(self, obj, lines, mode='direct'):
+  def load(self, obj, lines, mode='direct', probe=()):
     """Puts `lines` in force through the real loader.  mode: 'direct' - the file exists when read_from() is
     called; 'late' - the daemon starts without the file, it is created afterwards and the 10 s re-read task
     (on a private clock) picks it up; 'rewrite' - another list is in force first, the file is then rewritten."""
@@ -114,14 +114,25 @@ class Adm(object):
     elif mode == 'late':
       obj.read_from(path)
       clock.advance(10)
+      self.probe(probe)
       write(lines, 2000.0)
       clock.advance(10)
     else:
       write([dict(k='sub', lits=[enc('x')]), dict(k='prefix', lits=[enc('a')])], 1000.0)
       obj.read_from(path)
       clock.advance(10)
+      self.probe(probe)
       write(lines, 2000.0)
       clock.advance(10)
+
+  def probe(self, names):
+    # traffic for the same names while the EARLIER list is in force: whatever the daemon remembers about a name
+    # from then must not outlive the list
+    for n in names:
+      try:
+        self.send('line', n, 7.0, 1.0, 0)
+      except Exception:
+        pass
 
   def send(self, proto, name, ts, value, res, prelude=()):
     wm = self.wm
@@ -137,6 +148,7 @@ class Adm(object):
           run.feed(('%s %s %s\n' % (pn, repr(pv), repr(pts))).encode('utf-8'))
       except Exception:
         pass
+      self.ft.now += 1.5           # time passes between two datapoints of a connection ("-1" means the time of THIS datapoint)
     del run.seen[:]
     st.pop('blacklistMatches', None)
     st.pop('whitelistRejects', None)
@@ -164,10 +176,10 @@ def cases(ctx, adm, rng, n):
     nbl, nwl = rng.randint(0, 3), rng.randint(0, 3)
     bl = [gen_line(rng) for _ in range(nbl)]
     wl = [gen_line(rng) for _ in range(nwl)]
-    adm.load(adm.rl.BlackList, bl, rng.choice(['direct', 'direct', 'late', 'rewrite']))
-    adm.load(adm.rl.WhiteList, wl, rng.choice(['direct', 'direct', 'late', 'rewrite']))
-    for _ in range(6):
-      name = gen_name(rng, bl + wl)
+    names = [gen_name(rng, bl + wl) for _ in range(6)]
+    adm.load(adm.rl.BlackList, bl, rng.choice(['direct', 'direct', 'late', 'rewrite']), probe=names)
+    adm.load(adm.rl.WhiteList, wl, rng.choice(['direct', 'direct', 'late', 'rewrite']), probe=names)
+    for name in names:
       value = rng.choice([1.5, -2.0, 0.0, float('inf'), float('-inf'), float('nan'), float('nan'), 42])
       ts = rng.choice([-1.0, -1, 0.0, 7.0, 59.5, 60.0, 61.5, 119.5, 1234.5, -1.5, -5.0, -0.5])
       tsbad = 0
